@@ -48,7 +48,7 @@ pub fn random_game(rng: &mut StdRng) -> Game {
         0 => None,
         1 => Some(format!(" {} ", clk(rng))),
         2 => Some(format!(" [%eval {}{}.{}] {} ", if rng.gen_bool(0.5) { "-" } else { "" }, rng.gen_range(0..9), rng.gen_range(0..99), clk(rng))),
-        _ => if rng.gen_bool(0.5) { Some(format!(" {} ", clk(rng))) } else { None },
+        _ => match rng.gen_range(0..20) { 0 => Some(String::new()), 1 => Some(" ".into()), 2..=10 => Some(format!(" {} ", clk(rng))), _ => None },
     }).collect();
     let last = ps.last().unwrap();
     let result = if last.is_mate() { if last.wtm { "0-1" } else { "1-0" } } else { *["1-0", "0-1", "1/2-1/2", "*"].choose(rng).unwrap() }.to_string();
@@ -69,6 +69,8 @@ pub fn random_game(rng: &mut StdRng) -> Game {
             "Termination" => ["Normal", "Time forfeit", "Abandoned"].choose(rng).unwrap().to_string(),
             _ => rng.gen_range(800..2900).to_string(),
         };
+        // a tag pair may carry an empty value (titles of untitled players, unknown events)
+        let v = if *name != "Result" && rng.gen_range(0..25) == 0 { String::new() } else { v };
         tags.push((name.to_string(), v));
     }
     Game { tags, moves, comments, result, end_fen: last.to_fen() }
@@ -173,6 +175,10 @@ pub fn check_database(rng: &mut StdRng, rep: &mut Report, n_configs: usize) {
     let black_castle_unnumbered = games.iter().any(|g| g.moves.iter().enumerate().any(|(i, m)| i % 2 == 1 && m.starts_with("O-O") && g.comments[i - 1].is_none()));
     if black_castle_unnumbered { rep.count("databases_with_unnumbered_black_castling"); }
     rep.count(&format!("layout_final_newline_{}", layout.final_newline));
+    for g in &games {
+        if g.tags.iter().any(|(_, v)| v.is_empty()) { rep.count("games_with_empty_tag_value"); }
+        if g.comments.iter().any(|c| c.as_deref() == Some("")) { rep.count("games_with_empty_comment"); }
+    }
     for g in &games { rep.count(&format!("result_{}", g.result)); if g.comments.iter().any(|c| c.is_some()) { rep.count("games_with_comments"); } else { rep.count("games_without_comments"); } }
     for ci in 0..n_configs {
         let chunk = chunks[ci % chunks.len()];
